@@ -714,6 +714,7 @@ package flags
 //@ assumed func strings.Split(s string, sep string) (r []string)
 //@   pure
 //@   ensures len(r) >= 1
+//@   ensures sep == "\n" ==> nwd(s) == joinN(r, len(r))
 //@ assumed func os.LookupEnv(key string) (value string, ok bool)
 //@   pure
 
@@ -891,3 +892,42 @@ package flags
 //@   ensures[C19] err != nil ==> m == nil && isTyped(err, ErrTag)
 //@   ensures[C19] err == nil ==> m == tagAcc(x.value, make(map[string][]string))
 //@   assigns nothing
+
+
+// ===================================================================
+// help.go: wrapText
+// ===================================================================
+
+// nwd(s): the content of s that wrapping must preserve - s without white space
+// and without hyphens (the two things wrapText inserts or removes). Trusted
+// facts about it: it distributes over concatenation and over splitting a
+// string in two, and the separators have no content.
+//@ assumed func nwd(s string) (r string)
+//@   pure
+//@ homomorphism nwd
+//@ axiom nwd_consts: nwd("") == "" && nwd("\n") == "" && nwd("-") == "" && nwd(" ") == ""
+//@ axiom manual nwd_split: forall s string, i int :: 0 <= i && i <= len(s) ==> nwd(s[:i]) + nwd(s[i:]) == nwd(s)
+// content of the first n lines
+//@ pure func joinN(lines []string, n int) string = ite(n <= 0, "", joinN(lines, n-1) + nwd(lines[n-1]))
+
+//@ assumed func strings.TrimSpace(s string) (r string)
+//@   pure
+//@   ensures nwd(r) == nwd(s) && len(r) <= len(s)
+//@   ensures len(r) > 0 ==> r[0] != ' ' && r[len(r)-1] != ' '
+//@ assumed func strings.LastIndex(s string, sep string) (r int)
+//@   pure
+//@   ensures -1 <= r && r + len(sep) <= len(s)
+//@   ensures r >= 0 ==> s[r:r+len(sep)] == sep
+//@ assumed func utf8.RuneStart(b byte) (r bool)
+//@   pure
+
+//@ func wrapText(s string, l int, prefix string) (r string)
+//@   props C17 C04
+//@   requires nwd(prefix) == ""
+//@   loop 1 invariant l >= 10 && unfold(joinN(lines, idx_1)) && unfold(joinN(lines, idx_1 + 1)) && nwd(ret) == joinN(lines, idx_1)
+//@   loop 2 invariant l >= 10 && (len(line) > 0 ==> line[0] != ' ') && nwd(retline) + nwd(line) == nwd(loopentry(line))
+//@   loop 2 decreases len(line)
+//@   loop 3 invariant 1 <= pos && pos <= l - 1 && suffix == "-"
+//@   loop 3 decreases pos
+//@   at call strings.TrimSpace #2: 1 <= pos && pos < l && use(nwd_split, line, pos)
+//@   ensures[C17] nwd(r) == nwd(s)
